@@ -647,7 +647,8 @@ def build_script(gen, inst, plan, rng, counter):
     for rnd in range(plan.mode_rounds):
         for j, a in enumerate(acs):
             a["mode"] = MODE_CODES[(counter[0] + j + rnd) % len(MODE_CODES)]
-            a["power"] = (counter[0] + j + rnd) % 2
+            # every power state the console can report (AirTouch 5 also: off-away 2, on-away 3, sleep 5)
+            a["power"] = ([0, 1] if gen == 4 else [0, 1, 2, 3, 5])[(counter[0] + j + rnd) % (2 if gen == 4 else 5)]
         counter[0] += 1
         ops.append(ac_status_op(gen, acs))
         ops.append("view")
